@@ -97,14 +97,25 @@ def run(ctx):
     # settings combinations
     sreqs, sinfo = [], []
     for si, s in enumerate(ss[: (8 if ctx.quick else 40)]):
-        for tol in (None, 1e300):
+        for tol in (None, 1e300, 0.0, 1e-17):
             for dbg in (False, True):
                 for meta in (False, True):
                     r = dict(s["req"], debug=dbg, meta=meta)
                     if tol is not None:
                         r["tol"] = f2b(tol)
                     sreqs.append(r); sinfo.append((si, tol, dbg, meta))
-    for (si, tol, dbg, meta), a in zip(sinfo, run_harness(sreqs)):
+    sres = run_harness(sreqs)
+    first = {}
+    for (si, tol, dbg, meta), a in zip(sinfo, sres):
+        # for one stability tolerance the four (print_debug_info, return_metadata) combinations must agree among themselves,
+        # also when the test rejects the sample
+        key = (si, tol)
+        if key not in first:
+            first[key] = a
+        elif (a.get("status"), numeric(a)) != (first[key].get("status"), numeric(first[key])):
+            ctx.violation(f"with stability_test={tol} the outcome depends on (print_debug_info={dbg}, return_metadata={meta}): "
+                          f"{a.get('status')} vs {first[key].get('status')}", S.small_req(ss[si]), expected=first[key].get("status"), observed=a.get("status"))
+    for (si, tol, dbg, meta), a in zip(sinfo, sres):
         ctx.evaluations += 1; ctx.count("settings_combination")
         base = ss[si]["impl"]
         if tol is not None and a.get("status") in ("unstable", "zerodet") and base.get("status") == "ok":
